@@ -421,7 +421,12 @@ func main() {
 				}
 				for _, s := range r.Notes {
 					if strings.HasPrefix(s, "rule: ") {
-						a.rule = strings.TrimPrefix(s, "rule: ")
+						if r := strings.TrimPrefix(s, "rule: "); !strings.Contains(a.rule, r) {
+							if a.rule != "" {
+								a.rule += " || "
+							}
+							a.rule += r
+						}
 					} else if len(a.notes) < 40 {
 						a.notes = append(a.notes, s)
 					}
